@@ -44,6 +44,21 @@ class CaseResult:
         self.classes.extend(names)
 
 
+def _tawazi_object_leak(e: BaseException) -> Optional[str]:
+    """A tawazi usage error raised from tawazi's own code while the HARNESS was handling a returned value (==, repr):
+    the value contains UsageExecNode / LazyExecNode objects instead of results."""
+    if not type(e).__module__.startswith("tawazi"):
+        return None
+    tb = e.__traceback__
+    frames = []
+    while tb is not None:
+        frames.append(tb.tb_frame.f_code.co_filename)
+        tb = tb.tb_next
+    if frames and "/tawazi/" in frames[-1] and any("/vlib/" in f for f in frames) and "outside of a `DAG`" in str(e):
+        return f"a value returned by tawazi contains live tawazi objects: handling it in the harness raised {type(e).__name__}: {str(e)[:200]}"
+    return None
+
+
 def load_check(pid: str) -> Any:
     return importlib.import_module(f"vlib.checks.{pid.lower()}")
 
@@ -175,7 +190,15 @@ class Harness:
             res = CaseResult()
             res.viol("hang-in-tawazi", f"an operation of this case had not returned after {self.CASE_LIMIT_S:.0f}s and the thread was inside tawazi in three samples one second apart: {self._guard_frames}")
             return self.record(case, res, False)
-        except Exception:
+        except Exception as e:
+            leak = _tawazi_object_leak(e)
+            if leak:
+                # not a harness fault: a value handed back by tawazi still contains live tawazi objects (comparing
+                # or printing it ran tawazi's operator overloading, which raised)
+                self._case_t0 = None
+                res = CaseResult()
+                res.viol("tawazi-object-in-result", leak)
+                return self.record(case, res, False)
             # the harness itself broke: never reported as a property violation
             msg = traceback.format_exc()
             if len(self.harness_errors) < 5:
